@@ -107,12 +107,15 @@ def run_fault(args):
         for r in py:
             if r[5] is not None or r[6] is not None:
                 problems.append("a plain Python frame got template coordinates")
+        del LINE0[:]
+        problems += [p_ for p_ in record_consistency(tb, {"t.html": src}) if "innermost" not in p_]
         if tb.lineno != expect and not problems:
             problems.append("RichTraceback.lineno = %r, expected %d" % (tb.lineno, expect))
         if not problems and ("line %d" % expect) not in text:
             problems.append("text error template does not show line %d" % expect)
         if not problems and ("line %d" % expect) not in html and (">%d<" % expect) not in html:
             problems.append("html error template does not show line %d" % expect)
+        line0 = list(LINE0)
         if problems:
             return {"construct": kind, "path": path, "expected_line": expect, "problem": "; ".join(problems), "template": src}
         # format_exceptions
@@ -120,6 +123,8 @@ def run_fault(args):
         out = t2.render_unicode(boom=boom, fboom=filt_boom)
         if ("line %d" % expect) not in out and (">%d<" % expect) not in out:
             return {"construct": kind, "path": path, "expected_line": expect, "problem": "format_exceptions output does not show line %d" % expect}
+        if line0:
+            return {"construct": kind, "path": path, "line0": line0, "template": src}
         return None
     finally:
         os.chdir(cwd0)
@@ -160,12 +165,18 @@ def run_chain(path):
         for k, ln in expect.items():
             if ln not in got.get(k, []):
                 problems.append("%s: lines %r reported, expected %d" % (k, got.get(k), ln))
+        del LINE0[:]
         problems += record_consistency(tb, files)
         if problems:
             return {"path": path, "problem": "; ".join(problems)}
+        if LINE0:
+            return {"path": path, "line0": list(LINE0)}
         return None
     finally:
         shutil.rmtree(root, ignore_errors=True)
+
+
+LINE0 = []      # frames reported at template line 0 during the current case (the caller empties and reads it)
 
 
 def record_consistency(tb, files):
@@ -173,6 +184,7 @@ def record_consistency(tb, files):
     source, and RichTraceback.source / .lineno show the innermost template frame's own source"""
     problems = []
     last = None
+    line0 = LINE0
     for r in tb.records:
         if r[4] is None:
             continue
@@ -181,6 +193,10 @@ def record_consistency(tb, files):
         if src is None:
             continue
         last = (name, r)
+        if r[5] == 0:
+            # generated code ahead of a render function's first construct (argument set-up, def stubs): mapped to line 0
+            line0.append("frame %s (generated line %d) of %s is reported at template line 0, shown with the text %r" % (r[2], r[1], name, r[6]))
+            continue
         if r[7] != src:
             other = [k for k, v in files.items() if v == r[7]]
             problems.append("record for %s line %d carries the source of %s" % (name, r[5], other or "something else"))
@@ -230,11 +246,15 @@ def run_reentrant(args):
         except ZeroDivisionError:
             tb = exceptions.RichTraceback()
         names = [os.path.basename(str(r[4])).lstrip("/") for r in tb.records if r[4] is not None]
+        del LINE0[:]
         problems = record_consistency(tb, files)
+        line0 = list(LINE0)
         if len(set(names)) < 2 or names[-1] != "a.html":
             problems.append("frames were %r: not the re-entrant shape this case is meant to produce" % names)
         if problems:
             return {"kind": kind, "path": path, "frames": names, "problem": "; ".join(problems)}
+        if line0:
+            return {"kind": kind, "path": path, "line0": line0}
         return None
     finally:
         shutil.rmtree(root, ignore_errors=True)
